@@ -18,7 +18,8 @@ S == INSTANCE Sidecar
 CONSTANTS Targets, MaxN,          \* universe of targets; largest number of shards
           KOpts,                   \* the coordinator's options (record as in Rebalance `in.opts')
           Sizes,                   \* possible [series, total] sizes of a target
-          MaxClock, FaultBudget, EnvBudget
+          MaxClock, FaultBudget, EnvBudget,
+          InitDisc                 \* the possible sets of targets discovered at the start
 
 VARIABLES nsh,       \* replicas of the StatefulSet = number of shards
           sc,        \* sc[i]: sidecar state of ordinal i (1..MaxN; meaningful for i <= scale)
@@ -29,7 +30,7 @@ VARIABLES nsh,       \* replicas of the StatefulSet = number of shards
           clock,
           faults,    \* faults used so far
           envs,      \* environment changes used so far
-          cyc        \* the faults scripted for the running cycle (record), "none" when idle
+          cyc        \* the faults scripted for the running cycle (CycIdle when idle)
 
 wvars == <<nsh, sc, disc, size, alive, est, clock, faults, envs, cyc>>
 kvars == <<in, pc, ch, pl, ld, idl, need, cur, vis, tot, sps, scale, reqs, posts, scales>>
@@ -59,6 +60,9 @@ BuildInput(f) ==
    active |-> SetToSortSeq(disc, <), explore |-> ExploreSeq, failScale |-> f.failScale]
 
 (* ---- a coordination cycle ---- *)
+\* placeholders of the right shape while no cycle runs (TLC compares old and new values of every variable)
+CycIdle == [modes |-> <<>>, postFail |-> <<>>, failScale |-> -1]
+InIdle  == [id |-> "idle", opts |-> KOpts, shards |-> <<>>, active |-> <<>>, explore |-> <<>>, failScale |-> 0]
 NoFaults == [modes |-> [i \in 1..MaxN |-> "ok"], postFail |-> [i \in 1..MaxN |-> FALSE], failScale |-> 0]
 FaultCount(f) == Cardinality({i \in 1..MaxN : f.modes[i] # "ok"}) + Cardinality({i \in 1..MaxN : f.postFail[i]}) + (IF f.failScale # 0 THEN 1 ELSE 0)
 StartCycle(f) ==
@@ -94,7 +98,7 @@ EndCycle ==
         /\ sc' = [i \in 1..MaxN |-> IF i > n2 THEN Fresh(clock)            \* removed (or not yet existing): nothing kept
                                     ELSE IF i > nsh THEN Fresh(clock)       \* new pod
                                     ELSE upd(i)]
-  /\ pc' = "idle" /\ cyc' = "none"
+  /\ pc' = "idle" /\ cyc' = CycIdle
   /\ UNCHANGED <<disc, size, alive, est, clock, faults, envs, in, ch, pl, ld, idl, need, cur, vis, tot, sps, scale, reqs, posts, scales>>
 
 (* ---- the shards' Prometheus instances ---- *)
@@ -144,20 +148,31 @@ RecreatePod(i) ==
   /\ UNCHANGED <<nsh, disc, size, alive, est, clock, envs, cyc, kvars>>
 
 KInit ==
-  /\ nsh = 1 /\ clock = 0 /\ faults = 0 /\ envs = 0 /\ cyc = "none"
+  /\ nsh = 1 /\ clock = 0 /\ faults = 0 /\ envs = 0 /\ cyc = CycIdle
   /\ sc = [i \in 1..MaxN |-> Fresh(0)]
-  /\ disc = {} /\ alive = [t \in Targets |-> TRUE]
+  /\ disc \in InitDisc /\ alive = [t \in Targets |-> TRUE]
   /\ size \in [Targets -> Sizes]
   /\ est = [t \in Targets |-> [known |-> FALSE, health |-> "unknown", series |-> 0, total |-> 0]]
-  /\ pc = "idle" /\ in = <<>> /\ ch = <<>> /\ pl = <<>> /\ ld = <<>> /\ idl = <<>> /\ need = ZeroLoad /\ cur = 0
+  /\ pc = "idle" /\ in = InIdle /\ ch = <<>> /\ pl = <<>> /\ ld = <<>> /\ idl = <<>> /\ need = ZeroLoad /\ cur = 0
   /\ vis = {} /\ tot = 0 /\ sps = <<>> /\ scale = 0 /\ reqs = <<>> /\ posts = <<>> /\ scales = <<>>
 
+\* one fault per cycle: one shard in a bad mode, one targets POST lost, or one scale request failing
+OneFault ==
+  {[NoFaults EXCEPT !.modes[i] = m] : i \in 1..MaxN, m \in {"notready", "statusfail", "rtfail", "pushfail", "rt2fail", "stale", "pushok"}}
+  \cup {[NoFaults EXCEPT !.postFail[i] = TRUE] : i \in 1..MaxN}
+  \cup {[NoFaults EXCEPT !.failScale = k] : k \in {1, 2}}
 KNext ==
-  \/ \E f \in {NoFaults} : StartCycle(f)
+  \/ \E f \in {NoFaults} \cup (IF faults < FaultBudget THEN OneFault ELSE {}) : StartCycle(f)
+  \/ (\E i \in 1..MaxN : RestartSidecar(i) \/ RecreatePod(i)) \/ ShrinkByOne
   \/ CycleStep \/ EndCycle
   \/ \E i \in 1..MaxN : ScrapeRound(i)
   \/ Tick \/ (\E t \in Targets : Probe(t)) \/ EnvChange
 KSpec == KInit /\ [][KNext]_allvars
+\* liveness: cycles keep running, every shard's Prometheus keeps scraping, the explorer keeps probing
+KFair == KSpec /\ WF_allvars(StartCycle(NoFaults)) /\ WF_allvars(CycleStep) /\ WF_allvars(EndCycle)
+               \* (strong fairness: these are disabled while a cycle is running, i.e. again and again)
+               /\ \A i \in 1..MaxN : SF_allvars(ScrapeRound(i))
+               /\ \A t \in Targets : SF_allvars(Probe(t))
 
 -----------------------------------------------------------------------------
 (* the observable world, in the shape the harness records it (next-state version: all primed) *)
@@ -180,6 +195,8 @@ Converged ==
   /\ \A t \in Targets : EligibleT(t) => Cardinality(Holders(t)) = 1
   /\ \A i \in 1..nsh : \A t \in DOMAIN sc[i].status : sc[i].status[t].state = ""
   /\ \A i \in 1..nsh : \A t \in DOMAIN sc[i].status : t \in disc
+\* C03: once the environment has stopped changing, the converged state is reached and kept
+EventuallyConverged == <>[]Converged
 \* C05 / C03: a target that is assigned stays assigned somewhere while it is discovered (no gap)
 NoGap ==
   [][\A t \in Targets : (t \in disc /\ t \in disc' /\ Holders(t) # {} /\ nsh' >= nsh) => Holders(t)' # {}]_allvars
